@@ -1,7 +1,10 @@
 package c15
 
 import (
+	"bytes"
+	"compress/gzip"
 	"fmt"
+	"io"
 	"os"
 	"strings"
 	"testing"
@@ -38,6 +41,7 @@ type cliCase struct {
 	Extra      bool       `json:"extra"`         // --unique together with the flags documented as ignored
 	Fasta      cli.Layout `json:"fasta_layout"`  // presentation of the FASTA input
 	OutFile    int        `json:"out_file"`      // 0 standard output; -o <file>: 1 a new file, 2 an existing (stale) file
+	Omit       bool       `json:"omit_defaults"` // -s 0 / -l 10 are left out (documented defaults)
 	More       []gen.Ali  `json:"more"`          // further alignments of the input file (then a Phylip stream, -p)
 	Layout     int        `json:"layout"`        // Phylip output layout: 0 default, 1 --one-line, 2 --no-block, 3 both
 }
@@ -151,8 +155,17 @@ func genCLI(t *rapid.T) cliCase {
 	if uni(t, 3, "fastalayout") == 0 {
 		c.Fasta = cli.DrawLayout(t)
 	}
+	if c.Kind == "window" && uni(t, 4, "omit") == 0 {
+		c.Omit = true
+		if uni(t, 2, "deflen") == 0 {
+			c.Len = 10
+		}
+		if uni(t, 2, "defstart") == 0 {
+			c.Start = 0
+		}
+	}
 	if uni(t, 3, "outfile") == 0 {
-		c.OutFile = 1 + uni(t, 2, "stale")
+		c.OutFile = 1 + uni(t, 3, "stale") // 1 new file, 2 existing file, 3 new compressed file (.gz)
 	}
 	return c
 }
@@ -203,7 +216,15 @@ func checkCLI(dir string, c cliCase) (o pbt.Outcome, err error) {
 	}
 	switch c.Kind {
 	case "window":
-		args = append(args, "-s", fmt.Sprint(c.Start), "-l", fmt.Sprint(c.Len))
+		if !(c.Omit && c.Start == 0) {
+			args = append(args, "-s", fmt.Sprint(c.Start))
+		}
+		if !(c.Omit && c.Len == 10) {
+			args = append(args, "-l", fmt.Sprint(c.Len))
+		}
+		if c.Omit && (c.Start == 0 || c.Len == 10) {
+			o.Class("cli window:default of -s / -l left out")
+		}
 	case "pos":
 		args = append(args, "--pos", strings.Join(itoas(c.Pos), ","))
 	case "unique":
@@ -325,10 +346,14 @@ func checkCLI(dir string, c cliCase) (o pbt.Outcome, err error) {
 		// the output goes to a new file, or to a file that exists already (its stale content must be replaced)
 		outPath = cli.TempFile(dir, ".out", "")
 		os.Remove(outPath)
-		if c.OutFile == 2 {
+		switch c.OutFile {
+		case 2:
 			cli.StaleFile(outPath, 40)
 			o.Class("cli output:-o existing file")
-		} else {
+		case 3:
+			outPath += ".gz"
+			o.Class("cli output:-o compressed file (.gz)")
+		default:
 			o.Class("cli output:-o new file")
 		}
 		args = append(args, "-o", outPath)
@@ -338,8 +363,14 @@ func checkCLI(dir string, c cliCase) (o pbt.Outcome, err error) {
 	what := fmt.Sprintf("goalign %s", strings.Join(args, " "))
 	if outPath != "" && r.Exit == 0 {
 		b, e := os.ReadFile(outPath)
+		if e == nil && strings.HasSuffix(outPath, ".gz") {
+			var zr *gzip.Reader
+			if zr, e = gzip.NewReader(bytes.NewReader(b)); e == nil {
+				b, e = io.ReadAll(zr)
+			}
+		}
 		if e != nil {
-			return o, fmt.Errorf("%s: the output file was not written: %v", what, e)
+			return o, fmt.Errorf("%s: the output file was not written (or is not a complete gzip stream): %v", what, e)
 		}
 		if strings.TrimSpace(r.Stdout) != "" {
 			return o, fmt.Errorf("%s: output requested in a file, but standard output holds\n%s", what, firstLines(r.Stdout, 6))
